@@ -117,7 +117,7 @@ def build_c(mod, proof, ix):
         sig = r[2] if len(r) > 2 else None
         qn, d = ix.find_function(q, np, sig)
         root_cnames.append(em.need_function(d))
-    text = [getattr(mod, "defines_c", ""), '#include "xc.h"']
+    text = [getattr(proof, "defines_c", "") or "", getattr(mod, "defines_c", ""), '#include "xc.h"']
     for h in mod.spec_headers:
         text.append('#include "%s"' % h)
     text.append(getattr(mod, "pre_c", ""))
